@@ -29,10 +29,10 @@ pub enum TOp {
 
 pub fn alphabet() -> Vec<TOp> {
     let mut a = vec![];
-    for (w, s) in [(32, 0), (64, 1), (8, 0), (16, 1), (32, 1), (64, 0), (128, 0), (1, 0), (24, 0), (48, 1)] {
+    for (w, s) in [(32, 0), (64, 1), (8, 0), (16, 1), (32, 1), (64, 0), (128, 0), (1, 0), (24, 0), (48, 1), (0xFFFF_FFFF, 0)] {
         a.push(TOp::TInt(w, s));
     }
-    for w in [32, 64, 16, 128, 8, 24] {
+    for w in [32, 64, 16, 128, 8, 24, 0xFFFF_FFE1] {
         a.push(TOp::TFloat(w));
     }
     a.push(TOp::TBool);
